@@ -13,6 +13,7 @@ import (
 	"sort"
 	"strings"
 	"sync"
+	"syscall"
 	"testing"
 	"testing/synctest"
 	"time"
@@ -121,14 +122,25 @@ type Sim struct {
 	ah  *core.Hasher
 	mon *monitors
 
-	steps    int
-	maxSteps int
+	steps     int
+	maxSteps  int
+	wallStart time.Duration
+	maxWall   time.Duration
 	scratch  string
 	stopped  bool
 	faultsOn bool
 }
 
 func (s *Sim) now() time.Duration { return time.Since(s.start) }
+
+// wallNow reads the real clock (time.Now is the fake clock inside the bubble).
+// It is used only for the per-run watchdog, never for a decision that affects
+// the simulated execution other than giving up.
+func wallNow() time.Duration {
+	var tv syscall.Timeval
+	_ = syscall.Gettimeofday(&tv)
+	return time.Duration(tv.Sec)*time.Second + time.Duration(tv.Usec)*time.Microsecond
+}
 
 func (s *Sim) trace(f string, a ...interface{}) {
 	line := fmt.Sprintf("%8.3fs ", s.now().Seconds()) + fmt.Sprintf(f, a...)
@@ -416,6 +428,11 @@ func (s *Sim) loop(goal func() bool, maxSim time.Duration) {
 	tick := 20 * time.Millisecond
 	deadline := s.now() + maxSim
 	for s.steps < s.maxSteps {
+		if s.steps%256 == 0 && wallNow()-s.wallStart > s.maxWall {
+			s.res.Inconclusive = true
+			s.res.Probe("wall-cap-hit")
+			return
+		}
 		synctest.Wait()
 		s.flushOutbox()
 		s.mon.afterQuiescence()
